@@ -56,6 +56,10 @@ func (this *MultisignInfo) Deserialization(source *common.ZeroCopySource) error 
 	if eof {
 		return fmt.Errorf("MultisignInfo deserialize length of sig map error")
 	}
+	// every entry occupies at least two bytes (length prefix and bool): never size the map beyond what the input can hold
+	if l > source.Len()/2 {
+		return fmt.Errorf("MultisignInfo deserialize: sig map length %d exceeds remaining data", l)
+	}
 	sigMap := make(map[string]bool, l)
 	for i := uint64(0); i < l; i++ {
 		sig, eof := source.NextString()
